@@ -7,12 +7,15 @@ import traceback
 from .lean import Driver, MachineryError
 
 _drv = None
+_drv_pid = None
 
 
 def driver():
-    global _drv
-    if _drv is None:
+    """one Lean driver per process (a forked worker must not share its parent's pipe)"""
+    global _drv, _drv_pid
+    if _drv is None or _drv_pid != os.getpid():
         _drv = Driver()
+        _drv_pid = os.getpid()
     return _drv
 
 
